@@ -29,7 +29,13 @@ def f64_bits(x):
 def parse_float(tok):
     tok = tok.replace("_", "")
     tok = re.sub(r"f64$", "", tok)
-    return float(tok)
+    try:
+        return float(tok)
+    except ValueError:
+        # constant expression over float literals, e.g. `15.0 / 16.0` (binary64 arithmetic, as rustc's const eval)
+        if re.fullmatch(r"[0-9eE.+\-*/()\s]+", tok) and re.search(r"\d", tok):
+            return float(eval(tok, {"__builtins__": {}}, {}))
+        raise
 
 
 class ConstEnv:
@@ -61,8 +67,9 @@ class ConstEnv:
 
 
 def find_consts(text):
-    """yield (name, type, expr) for `const NAME: TYPE = EXPR;` items (any visibility)."""
-    for m in re.finditer(r"\bconst\s+([A-Z][A-Z0-9_]*)\s*:\s*([^=;]+?)\s*=\s*(.*?);", text, re.S):
+    """yield (name, type, expr) for `const NAME: TYPE = EXPR;` and `static NAME: TYPE = EXPR;` items
+    (any visibility); TYPE may be an array type `[T; N]` (the `;` inside brackets is allowed)."""
+    for m in re.finditer(r"\b(?:const|static)\s+([A-Z][A-Z0-9_]*)\s*:\s*((?:[^=;\[]|\[[^=]*\])+?)\s*=\s*(.*?);", text, re.S):
         yield m.group(1), m.group(2).strip(), m.group(3).strip()
 
 
@@ -197,6 +204,96 @@ def write_if_changed(path, content):
     return True
 
 
+def fn_body(text, name):
+    """source text of `fn name(...) {...}` (first match), braces balanced"""
+    m = re.search(r"\bfn\s+%s\s*(<[^>]*>)?\s*\(" % re.escape(name), text)
+    if not m:
+        return None
+    i = text.index("{", m.end())
+    depth, j = 0, i
+    while j < len(text):
+        if text[j] == "{":
+            depth += 1
+        elif text[j] == "}":
+            depth -= 1
+            if depth == 0:
+                return text[i:j + 1]
+        j += 1
+    return None
+
+
+def fn_literals(text, name):
+    """integer literals appearing in the body of fn `name`, in source order"""
+    b = fn_body(text, name)
+    if b is None:
+        return None
+    out = []
+    for t in re.findall(r"(?<![\w.])(0x[0-9a-fA-F_]+|\d[\d_]*)(?:u8|u16|u32|u64|usize|i32|i64)?(?![\w.])", b):
+        out.append(int(t.replace("_", ""), 0))
+    return out
+
+
+def literal_extra(fnames):
+    """extra-emitter: LIT_<fn> : list Z for each listed function of the file"""
+    def go(f, text, env, found):
+        out = []
+        for fn in fnames.get(f, []):
+            lits = fn_literals(text, fn)
+            if lits is None:
+                raise SystemExit("translate.py: %s: fn %s not found" % (f, fn))
+            out.append("Definition LIT_%s : list Z := [%s]." % (fn, "; ".join(str(x) for x in lits)))
+            found.add("LIT_" + fn)
+        return out
+    return go
+
+
+def static_extra(statics, float_fns):
+    """extra-emitter (hll family): `static NAME: [T; N] = [...]` / `static NAME: &[T] = &[...]` numeric tables
+    (anywhere in the file, including inside fn bodies) as NAME : list Z (f64 as bit patterns), and
+    FLIT_<fn> : list Z = bit patterns of the float literals (d.d form) in the body of fn, in source order"""
+    def go(f, text, env, found):
+        out = []
+        for name in statics.get(f, []):
+            if name in found:
+                continue   # already emitted by the generic const/static scan
+            m = re.search(r"\bstatic\s+%s\s*:\s*(&?)\[\s*(\w+)\s*(?:;[^\]]*)?\]\s*=\s*&?\[(.*?)\]\s*;" % re.escape(name), text, re.S)
+            if not m:
+                raise SystemExit("translate.py: %s: static %s not found" % (f, name))
+            ty, items = m.group(2), split_top(m.group(3))
+            if ty == "f64":
+                vals = [f64_bits(parse_float(it)) for it in items]
+            elif ty in INT_TYPES:
+                vals = [env.eval_int(it) for it in items]
+                if any(v is None for v in vals):
+                    raise SystemExit("translate.py: %s: static %s: cannot evaluate an item" % (f, name))
+            else:
+                raise SystemExit("translate.py: %s: static %s: unsupported element type %s" % (f, name, ty))
+            out.append("Definition %s : list Z :=\n  [%s]." % (name, "; ".join(coq_int(v) for v in vals)))
+            found.add(name)
+        for fn in float_fns.get(f, []):
+            b = fn_body(text, fn)
+            if b is None:
+                raise SystemExit("translate.py: %s: fn %s not found" % (f, fn))
+            lits = re.findall(r"(?<![\w.])(\d[\d_]*\.\d[\d_]*(?:[eE][+-]?\d+)?)(?:f64)?(?![\w.])", b)
+            out.append("Definition FLIT_%s : list Z := [%s]." % (fn, "; ".join(str(f64_bits(parse_float(t))) for t in lits)))
+            found.add("FLIT_" + fn)
+        return out
+    return go
+
+
+def spec_extra(spec):
+    """GEN_MODULES entry = (module, files, required[, {file: [fns]} integer literals[, {file: [statics]}[, {file: [fns]} float literals]]])"""
+    emitters = [literal_extra(spec[3])]
+    if len(spec) > 4:
+        emitters.append(static_extra(spec[4], spec[5] if len(spec) > 5 else {}))
+    def go(f, text, env, found):
+        out = []
+        for e in emitters:
+            out += e(f, text, env, found)
+        return out
+    return go
+
+
 def family_extra(f, text, env, found):
     out = []
     if f.endswith("codec/family.rs"):
@@ -312,9 +409,13 @@ def gen_bitpack():
 def main():
     gen_module("GenCodec", ["codec/family.rs"], required=["FAMILY_HLL_ID", "FAMILY_COUNTMIN_ID"], extra=family_extra)
     gen_module("GenHash", ["hash/mod.rs", "hash/murmurhash.rs", "hash/xxhash.rs"],
-               required=["C1", "C2", "P1", "P2", "P3", "P4", "P5", "DEFAULT_UPDATE_SEED"])
+               required=["C1", "C2", "P1", "P2", "P3", "P4", "P5", "DEFAULT_UPDATE_SEED"],
+               extra=literal_extra({"hash/mod.rs": ["compute_seed_hash"],
+                                    "hash/murmurhash.rs": ["finish128", "update", "write", "fmix64"],
+                                    "hash/xxhash.rs": ["with_seed", "finish64", "hash_u64", "round", "merge_round", "finalize"]}))
     for spec in family_gen_modules():
-        gen_module(spec[0], spec[1], required=spec[2] if len(spec) > 2 else ())
+        gen_module(spec[0], spec[1], required=spec[2] if len(spec) > 2 else (),
+                   extra=spec_extra(spec) if len(spec) > 3 else None)
     if os.path.exists(os.path.join(OUT, "..", "Base", "BitExp.v")):
         gen_bitpack()
     # digest of everything generated, for the evidence files
